@@ -876,7 +876,15 @@ func (g *TxGen) make(t tx.TxType) *draft {
 			case 1:
 				thr = sum + 1
 			case 2:
+				// more addresses than weights; the threshold stays reachable with the remaining weights
 				ws = ws[:len(ws)-1]
+				var rest uint32
+				for _, x := range ws {
+					rest += x
+				}
+				if rest > 0 {
+					thr = uint32(1 + R.Intn(int(rest)))
+				}
 			}
 		}
 		if t == tx.TypeCreateMultisig {
@@ -890,7 +898,9 @@ func (g *TxGen) make(t tx.TxType) *draft {
 			if len(g.S.W.Multisigs) == 0 {
 				return nil
 			}
-			if kind != "invalid" {
+			if kind != "invalid" || R.Intn(2) == 0 {
+				// also half of the malformed edits come from a real wallet: if the node accepts one, the harness signs with
+				// the owners it was given from then on (lead: seed C07-m1 needs the weightless owner to sign afterwards)
 				m := g.S.W.Multisigs[R.Intn(len(g.S.W.Multisigs))]
 				s := Senderish{M: m}
 				d.sender = &s
